@@ -55,6 +55,9 @@ class DiagX(SDEFunction):
 
     def __call__(self, t: float, x: np.array) -> np.array:
         # x is a column vector: np.diag of a 2d array would extract its diagonal instead of building the matrix
+        if np.ndim(x) == 3:
+            # stacked (fine, coarse) states of the coupled scheme: one diagonal matrix per component
+            return np.stack([np.diag(np.ravel(xi)) for xi in x])
         return np.diag(np.ravel(x))
 
 
